@@ -69,7 +69,7 @@ Definition cells : list string :=
    "actor.hasData"; "observer.hasData"; "collectedSignal.hasData"; "auditor.hasData";
    "sink.lastVal";
    "collectorState.errors"; "collectorState.badCounts"; "collectorState.goodCounts";
-   "auditionState.curMood"; "auditionState.curMoodStart";
+   "auditionState.curMood"; "auditionState.curMoodStart"; "auditionState.curVals";
    "auditor.name"; "config.dataDir"; "actor.workDir";
    "workerRegistry.mu.workers"; "workerRegistry.mu.numWorkers"].
 
@@ -160,6 +160,9 @@ Definition comp_map : list (string * list comp) :=
     ("audition.checkEvent", [Audition]); ("audition.checkEventForAuditor", [Audition]); ("audition.checkFinal", [Audition]);
     ("audition.collectAndAuditActChange", [Audition]); ("audition.collectAndAuditMood", [Audition]);
     ("audition.processAssignments", [Audition]); ("audition.processMoodChange", [Audition]);
+    (* the audit loop's variable store (curVals): never handed to another component *)
+    ("audition.setAndActivateVar", [Audition]); ("audition.evalExpr", [Audition]); ("audition.evalBool", [Audition]);
+    ("audition.checkExpect", [Audition]);
     (* the prompter and its lines *)
     ("prompter.startPrompter$spawn1", [Prompter]); ("prompter.prompt", [Prompter]); ("prompter.runScene", [Prompter]);
     ("prompter.signalActChange", [Prompter]); ("prompter.runMoodChange", [Prompter; Line]);
